@@ -194,7 +194,7 @@ pub fn c17_cells() -> Vec<Cell> {
                             out.push(Cell { role, as_client, ver, wire_v, status, flag, k });
                         }
                         // CONNECT with unsupported protocol levels, CONNACK with a failure code
-                        for k in [16usize, 17, 18] {
+                        for k in [16usize, 17, 18, 19] {
                             out.push(Cell { role, as_client, ver, wire_v, status, flag, k });
                         }
                         // kinds this role may never receive, with a non-canonical flag nibble
@@ -332,6 +332,10 @@ fn c17_frame(c: &Cell, idw: usize) -> Vec<u8> {
             if k == 17 {
                 p.level = 6;
             }
+            if k == 19 {
+                // the right level with the top bit set: still not level 4 / 5
+                p.level = 0x80 | v;
+            }
         }
         CONNACK => p.rc = Some(if k == 18 { if v == 5 { 0x87 } else { 5 } } else { 0 }),
         PUBLISH => {
@@ -362,7 +366,7 @@ fn c17_frame(c: &Cell, idw: usize) -> Vec<u8> {
 pub fn run_c17_cell(c: &Cell) -> CellResult {
     let mut s = reach(c);
     let nib = if c.k >= 32 { c.k - 32 } else if c.k == 18 { 2 } else if c.k >= 16 { 1 } else { c.k };
-    let desc = format!("role={:?} acting={} ver={:?} wire=v{} status={:?} flag={:?} frame={}{}", c.role, if c.as_client { "client" } else { "server" }, c.ver, c.wire_v, c.status, c.flag, wire::kind_name(nib as u8), if c.k == 16 { " level 3" } else if c.k == 17 { " level 6" } else if c.k == 18 { " failure code" } else if c.k >= 32 { " non-canonical flags" } else { "" });
+    let desc = format!("role={:?} acting={} ver={:?} wire=v{} status={:?} flag={:?} frame={}{}", c.role, if c.as_client { "client" } else { "server" }, c.ver, c.wire_v, c.status, c.flag, wire::kind_name(nib as u8), if c.k == 16 { " level 3" } else if c.k == 17 { " level 6" } else if c.k == 19 { " level 0x80|v" } else if c.k == 18 { " failure code" } else if c.k >= 32 { " non-canonical flags" } else { "" });
     if s.w.failed() {
         return CellResult { desc, viol: s.w.viol.clone(), log: s.w.log.clone(), refused: false, steps: s.w.step as u64, stats: s.w.stats.clone() };
     }
